@@ -77,6 +77,23 @@ This is to be used in custom allocators."#,
     }
 
     // This checks there is no type substitution which could lead to unsafe
+    // code due to different type alignment.
+    for (type_name, align) in definition
+        .variants()
+        .flat_map(|variant| variant.data())
+        .map(|d| {
+            let details = definition[d].details();
+            (details.type_name(), details.type_align())
+        })
+        .collect::<BTreeSet<_>>()
+    {
+        scope.raw(format!(
+            "const_assert_eq!(std::mem::align_of::<{}>(), {});",
+            type_name, align
+        ));
+    }
+
+    // This checks there is no type substitution which could lead to unsafe
     // code due to different type size.
     for (type_name, size) in type_size_assertions {
         scope.raw(format!(
